@@ -378,6 +378,23 @@ def verify_kernel(ctx, prog, name):
                         fast_var = v
                         flags[v] = c
     if inplace_var is None:
+        # the decision exists but is nested under another condition: then aliasing source and destination is recognised only
+        # in that case, and the element-wise loops run over a buffer they are overwriting in all others
+        nested = []
+
+        def _vis(nd, stk):
+            if nd[0] == "if" and stk and any(s_[0] == "if" for s_ in stk):
+                c = strip(nd[1])
+                if kind(c) == "bin" and c[1] == "==" and {path(c[2]), path(c[3])} == {SRC, DST}:
+                    nested.append((nd, [s_ for s_ in stk if s_[0] == "if"][-1]))
+            return True
+
+        ast_walk(top, _vis)
+        if nested:
+            nd, outer = nested[0]
+            ctx.violated("F8", "F8:%s" % name, f.where(nd[-3] if isinstance(nd[-3], int) else None),
+                         "the in-place decision `%s` is taken only under `%s`: a strided conversion whose source is its destination runs the element-wise loop over the bytes it is overwriting" % (render(nd[1]), render(outer[1])[:60]))
+            return
         ctx.unrecognised("F8", "F8:%s" % name, f.where(), "`if (source == dest) in_place = 1` not found")
         return
     # fast condition must imply both strides are 0 (or both equal the element size for copy kernels)
